@@ -1,7 +1,8 @@
 CONSTANTS
-  G = 3
+  G = 2
   Ws = {1, 2, 3}
   D <- DQuick
+  Als = {0, 1, 2}
   HasFill = TRUE
 SPECIFICATION Spec
 INVARIANTS RowInsideBox Equivariant RowsOrdered NoRowLost OutlineIsThreeLines
